@@ -224,7 +224,11 @@ type Scenario struct {
 	// block 1 and its check-in - the encryption key the dealers wait for -
 	// lands d blocks after EonStarted. The other keypers (>= t of them) start
 	// the eon without it.
-	StartLate   map[int]int
+	StartLate map[int]int
+	// L1Static: the observed main-chain block number stays 0 for the whole run and
+	// DKGStartBlockDelta is 200 (the production default): keyper sets are voted for
+	// at once, no block-seen report ever becomes due, no batch config is ever started.
+	L1Static    bool
 	PlainBudget int // send budget per step under the plain schedule (0 = unlimited): 1 puts a keyper's commitment and evals into different blocks
 	Replicas    int
 }
@@ -246,6 +250,9 @@ func (sc Scenario) String() string {
 	if len(sc.StartLate) > 0 {
 		lag += fmt.Sprintf(" startLate=%v", sc.StartLate)
 	}
+	if sc.L1Static {
+		lag += " L1-static(0)"
+	}
 	if sc.Overlap != nil {
 		lag += fmt.Sprintf(" overlap={set2 due at +%d, rotated by %d}", sc.Overlap.At, sc.Overlap.Rot)
 	}
@@ -262,6 +269,13 @@ func (sc Scenario) order2() []int {
 		o[p] = sc.Order[(p+sc.Overlap.Rot)%sc.N]
 	}
 	return o
+}
+
+func (sc Scenario) startDelta() uint64 {
+	if sc.L1Static {
+		return 200
+	}
+	return dkgStartDelta
 }
 
 func (sc Scenario) honest() []int {
@@ -324,7 +338,7 @@ type Node struct {
 	Panics       []string
 }
 
-func makeConfig(u int, phaseLen int64) *kprconfig.Config {
+func makeConfig(u int, phaseLen int64, startDelta uint64) *kprconfig.Config {
 	vp := ed25519.PublicKey(uni.ValKeys[u])
 	return &kprconfig.Config{
 		InstanceID: 1,
@@ -332,7 +346,7 @@ func makeConfig(u int, phaseLen int64) *kprconfig.Config {
 			ValidatorPublicKey: &keys.Ed25519Public{Key: vp},
 			EncryptionKey:      &keys.ECDSAPrivate{Key: encKeys[u]},
 			DKGPhaseLength:     phaseLen,
-			DKGStartBlockDelta: dkgStartDelta,
+			DKGStartBlockDelta: startDelta,
 		},
 		Ethereum: &configuration.EthnodeConfig{PrivateKey: &keys.ECDSAPrivate{Key: uni.Keys[u]}},
 	}
@@ -481,7 +495,7 @@ func newRun(ctx context.Context, sc Scenario, ch chooser) (*Run, error) {
 				rnd: newDetReader(fmt.Sprintf("byz/%s/%d", sc.String(), p))}
 			continue
 		}
-		n := &Node{Pos: p, U: u, Addr: r.addrs[p], Cfg: makeConfig(u, sc.L), Srv: tmpl.Clone()}
+		n := &Node{Pos: p, U: u, Addr: r.addrs[p], Cfg: makeConfig(u, sc.L, sc.startDelta()), Srv: tmpl.Clone()}
 		// what the chain observer would have synced from the keyper set manager contract
 		setup, err := n.Srv.Connect(ctx, 1)
 		if err != nil {
@@ -525,6 +539,14 @@ func (r *Run) unsupported() []string {
 	return all
 }
 
+// curL1 is the main-chain block number the keypers observe right now.
+func (r *Run) curL1() uint64 {
+	if r.sc.L1Static {
+		return 0
+	}
+	return r.l1
+}
+
 func (r *Run) stepNode(n *Node, budget int) {
 	var err error
 	if r.checkPersisted {
@@ -548,7 +570,7 @@ func (r *Run) stepNode(n *Node, budget int) {
 	if r.StepHook != nil {
 		err = r.StepHook(r, n, budget)
 	} else {
-		err = n.step(r.ctx, r.l1, budget)
+		err = n.step(r.ctx, r.curL1(), budget)
 	}
 	if err == nil {
 		if r.checkPersisted {
